@@ -28,6 +28,11 @@ func H_C15_compose() {
 		copy(buf, contents[i])
 		vPut(g, "b", n, buf)
 	}
+	// s1 (a possible destination) carries user metadata: a compose onto it takes its metadata from the request
+	g.handleGcsUpdateMetadataRequest(vCtx(), dontNeedUrls, vNewRecorder(), &http.Request{Body: &vBody{decode: func(v interface{}) error {
+		(*v.(**storage.Object)).Metadata = map[string]string{"old": "meta"}
+		return nil
+	}}}, "b", "s1", emptyConds)
 	// source list: length 0,1,2,3,32,33 with repeats; optionally a missing source; destination may be a source
 	nsrc := []int{0, 1, 2, 3, 32, 33}[vChoice("nsources", 0, 5)]
 	var srcs []*storage.ComposeRequestSourceObjects
@@ -94,6 +99,7 @@ func H_C15_compose() {
 		d := vSnap(g, "b", dst)
 		vAssert(d.exists && string(d.content) == want, "compose:destination-is-the-concatenation-in-request-order")
 		vAssert(d.ctype == "text/composed", "compose:destination-metadata-from-request")
+		vAssert(len(d.metadata) == 0, "compose:user-metadata-from-request-not-from-the-overwritten-object")
 		unchanged(dst)
 		if o := w.object(); o != nil {
 			vAssert(o.Size == uint64(len(want)), "compose:response-size")
